@@ -512,6 +512,19 @@ def run_check(prop, suites, tier, seed, level_note, trusted_extra=(), replay=Non
             if getattr(suite, "names_rate", 0) or getattr(suite, "past_rate", 0):
                 import gen as _gen
                 cases = _gen.decorate_cases(cases, rng, getattr(suite, "names_rate", 0), getattr(suite, "past_rate", 0))
+            for flag in ("scribbled", "bench"):
+                # scribbled: the caller emptied / overwrote the objects the read accessors gave it (algos.scribble) before the judged call;
+                # bench: the judged call is made with bench_mode=True (same answer expected)
+                rate = getattr(suite, flag + "_rate", 0)
+                if rate:
+                    r3 = random.Random(f"{seed}:{suite.name}:{flag}")
+                    cases = [dict(c, **{flag: True}) if isinstance(c, dict) and flag not in c and r3.random() < rate else c for c in cases]
+            if getattr(suite, "scaled_rate", 0):
+                # the library is handed the scheme multiplied by a power of two (exact in binary floating point) - tiny or large - while
+                # the model keeps the scheme of the case: orders, ties, partitions and refusals do not depend on a common positive factor
+                r4 = random.Random(f"{seed}:{suite.name}:scaled")
+                cases = [dict(c, scale_exp=r4.choice([-24, -30, -17, 20])) if isinstance(c, dict) and "scale_exp" not in c
+                         and r4.random() < suite.scaled_rate else c for c in cases]
             if getattr(suite, "seasoned_rate", 0):
                 # a share of the cases make the judged call on algorithm objects that have served before (algos.seasoned); the flags are
                 # drawn from a generator of their own so that the cases themselves do not depend on the rate
@@ -632,6 +645,11 @@ def run_check(prop, suites, tier, seed, level_note, trusted_extra=(), replay=Non
         if replay is None and (getattr(suite, "names_rate", 0) or getattr(suite, "past_rate", 0)):
             per_suite[suite.name]["cases_with_hostile_names"] = sum(1 for c in all_cases if isinstance(c, dict) and "_names" in c)
             per_suite[suite.name]["cases_with_a_past"] = sum(1 for c in all_cases if isinstance(c, dict) and "_past" in c)
+        if replay is None and getattr(suite, "scaled_rate", 0):
+            per_suite[suite.name]["cases_with_scaled_scheme"] = sum(1 for c in all_cases if isinstance(c, dict) and "scale_exp" in c)
+        for flag in ("scribbled", "bench"):
+            if replay is None and getattr(suite, flag + "_rate", 0):
+                per_suite[suite.name]["cases_" + flag] = sum(1 for c in all_cases if isinstance(c, dict) and c.get(flag))
         if replay is None and getattr(suite, "seasoned_rate", 0):
             per_suite[suite.name]["cases_with_seasoned_algorithm_objects"] = sum(1 for c in all_cases if isinstance(c, dict) and c.get("seasoned"))
         if acc:
